@@ -514,3 +514,52 @@ Example dialpeer_monitor_rejects_unattempted_after_backoff_expiry :
                   2; 2000000000; 0; 0; 0; 1; 1; 1; 1; 1; 0; 2; 4; 1; 1; 1; 2; 0; 0; 1; 1; 1; 1; 1; 0; 1;
                   4; 2; 1; 2; 2; 0; 1; 2; 0; 0; 0; 0; 0; 0; 0; 2; 1000000000; 0; 0; 0; 0; 0; 0; 0; 0; 0; 0] = [ERR_PROPERTY; 5; 12].
 Proof. vm_compute. reflexivity. Qed.
+
+(* wire stimulus 5 of the limiter cases (an attempt finishes while nobody receives its result,
+   then its context is cancelled), recorded from the implementation: fdLimit 1, perPeerLimit 1,
+   job 1 (TCP, peer 1) runs, job 2 waits on the peer limit, job 3 (TCP, peer 2) for the FD token.
+   The history of the unchanged code is reproduced by the model and accepted by the monitor: the
+   tokens of job 1 go to jobs 2 and 3.  The history recorded from a seeded defect (the cancellation
+   is looked at once, before the send of the result: the goroutine stays parked in the send) is
+   rejected by the residue clause at the second entry of the stimulus (trace entry 4): nothing in
+   flight, fdConsuming = 1. *)
+Example limiter_undelivered_result_then_cancel_accepted :
+  conform_lim_case [1; 1;  1; 1; 1; 1; 1;  1; 0; 0; 1; 1; 1; 0; 1; 1; 1; 1; 1;
+                    1; 2; 1; 0; 2;  1; 0; 0; 1; 1; 1; 1; 1; 1; 1; 1; 1; 1; 1;
+                    1; 3; 2; 1; 2;  1; 1; 0; 2; 1; 1; 2; 1; 1; 1; 1; 1; 1; 1; 1; 1;
+                    5; 1; 1;  1; 1; 0; 2; 1; 1; 2; 1; 1; 1; 1; 1; 1; 1; 1; 1;
+                              1; 0; 0; 2; 1; 1; 2; 1; 0; 2; 2; 1; 0; 2; 3; 2; 1; 2;
+                    2; 2;  1; 0; 0; 2; 1; 1; 2; 1; 0; 2; 2; 1; 0; 2; 3; 2; 1; 2;
+                    4; 2;  1; 0; 0; 1; 2; 1; 0; 1; 3; 2; 1; 2;
+                    4; 3;  0; 0; 0; 0; 0; 0] = [] /\
+  monitor_lim_case [1; 1;  1; 1; 1; 1; 1;  1; 0; 0; 1; 1; 1; 0; 1; 1; 1; 1; 1;
+                    1; 2; 1; 0; 2;  1; 0; 0; 1; 1; 1; 1; 1; 1; 1; 1; 1; 1; 1;
+                    1; 3; 2; 1; 2;  1; 1; 0; 2; 1; 1; 2; 1; 1; 1; 1; 1; 1; 1; 1; 1;
+                    5; 1; 1;  1; 1; 0; 2; 1; 1; 2; 1; 1; 1; 1; 1; 1; 1; 1; 1;
+                              1; 0; 0; 2; 1; 1; 2; 1; 0; 2; 2; 1; 0; 2; 3; 2; 1; 2;
+                    2; 2;  1; 0; 0; 2; 1; 1; 2; 1; 0; 2; 2; 1; 0; 2; 3; 2; 1; 2;
+                    4; 2;  1; 0; 0; 1; 2; 1; 0; 1; 3; 2; 1; 2;
+                    4; 3;  0; 0; 0; 0; 0; 0] = [].
+Proof. vm_compute. split; reflexivity. Qed.
+
+Example limiter_monitor_rejects_tokens_kept_by_undelivered_result :
+  monitor_lim_case [1; 1;  1; 1; 1; 1; 1;  1; 0; 0; 1; 1; 1; 0; 1; 1; 1; 1; 1;
+                    1; 2; 1; 0; 2;  1; 0; 0; 1; 1; 1; 1; 1; 1; 1; 1; 1; 1; 1;
+                    1; 3; 2; 1; 2;  1; 1; 0; 2; 1; 1; 2; 1; 1; 1; 1; 1; 1; 1; 1; 1;
+                    5; 1; 1;  1; 1; 0; 2; 1; 1; 2; 1; 1; 1; 1; 1; 1; 1; 1; 1;
+                              1; 1; 0; 2; 1; 1; 2; 1; 1; 1; 1; 0;
+                    2; 2;  1; 1; 0; 2; 1; 1; 2; 1; 1; 1; 1; 0] = [ERR_PROPERTY; 4; 2; 1; 1].
+Proof. vm_compute. reflexivity. Qed.
+
+(* wire stimulus 8 of the DialPeer cases, recorded from a seeded defect of the implementation
+   (the DialPeer timeout is not applied to a caller whose context has a deadline of its own):
+   caller 1 called with a dial timeout of 40.501 ms on a context whose deadline is 11 s away;
+   when the dial timeout passes the call has not returned - clause 2 *)
+Example dialpeer_monitor_rejects_call_outliving_its_dial_timeout :
+  monitor_d_case [2; 4; 0;  2; 1000000; 0; 0; 0; 0; 0; 0; 0; 0; 0; 0;
+                  1; 1; 1; 0; 1; 2; 2; 0; 1; 0;  0; 2; 1; 2; 0; 0; 2; 0; 2; 1; 0; 1;
+                  1; 2; 0; 0; 1; 2; 1; 100000000; 2; 30000000;  0; 0; 0; 0; 2; 0; 2; 1; 0; 2;
+                  3; 1; 0; 0;  0; 0; 1; 1; 0; 1; 0; 1; 1; 0; 2;
+                  2; 40500999;  0; 0; 0; 0; 1; 0; 1; 1; 0; 2;
+                  8; 1; 40501000; 11040501000;  0; 0; 0; 0; 1; 0; 1; 1; 0; 2] = [ERR_PROPERTY; 5; 2].
+Proof. vm_compute. reflexivity. Qed.
